@@ -111,6 +111,11 @@ class Builder:
                                     domain_size=s["ds"], range_size=s["rs"])
         if k == "projlist":
             return pp.ad.ProjectionList([self.build(p) for p in s["ps"]])
+        if k == "merged":       # a discretization matrix (ad_utils.MergedOperator)
+            d = getattr(pp.ad, s["cls"])(s["kw"], [G[i] for i in s["doms"]])
+            return getattr(d, s["term"])(s["inner"]) if s.get("inner") else getattr(d, s["term"])()
+        if k == "div":          # grid_operators.Divergence
+            return pp.ad.Divergence([G[i] for i in s["doms"]], dim=s["dim"])
         if k == "bin":
             return self.apply(s["op"], self.build(s["a"]), self.build(s["b"]))
         if k == "rnum":   # plain number / ndarray as the LEFT operand
@@ -177,6 +182,11 @@ def ser(op):
         return ser_proj(op)
     if isinstance(op, A.ProjectionList):
         return ["projlist", [ser_proj(c) for c in op.children]]
+    if isinstance(op, A.MergedOperator):
+        return ["merged", op.name, [int(d.id) for d in op.domains], op._discretization_matrix_key,
+                op._physics_key, op._inner_physics_key]
+    if isinstance(op, A.Divergence):
+        return ["div", int(op.dim), [int(d.id) for d in op.subdomains]]
     if type(op) is A.Operator:
         name = op.operation.value
         if name in BINOPS and len(op.children) == 2:
@@ -258,6 +268,11 @@ def ctree(t):
         return f"(Leaf (LProj {cproj(t)}))"
     if k == "projlist":
         return f"(Leaf (LProjList {clist(t[1], cproj)}))"
+    if k == "merged":
+        ik = "None" if t[5] is None else f"(Some {cstring(t[5])})"
+        return (f"(Leaf (LMerged {cstring(t[1])} {zl(t[2])} {cstring(t[3])} {cstring(t[4])} {ik}))")
+    if k == "div":
+        return f"(Leaf (LDiv {cz(t[1])} {zl(t[2])}))"
     if k == "bin":
         return f"(Bin {BINOPS[t[1]]} {ctree(t[2])} {ctree(t[3])})"
     if k == "eval":
@@ -277,6 +292,23 @@ def gen_proj(rng):
     rs = rng.randint(n, n + 3)
     return {"k": "proj", "dom": sorted(rng.sample(range(ds), n)),
             "rng": rng.sample(range(rs), n), "ds": ds, "rs": rs}
+
+
+MERGED = {"MpfaAd": ["flux", "bound_flux", "bound_pressure_cell", "vector_source"],
+          "TpfaAd": ["flux", "bound_flux", "bound_pressure_face"],
+          "UpwindAd": ["upwind", "bound_transport_dir", "bound_transport_neu"],
+          "MpsaAd": ["stress", "bound_stress", "bound_displacement_cell"]}
+COUPLING = ["scalar_gradient", "displacement_divergence", "consistency", "bound_pressure"]
+
+
+def gen_merged(rng):
+    doms = rng.sample(range(4), rng.randint(1, 3))
+    kw = rng.choice(["flow", "transport", "mechanics"])
+    if rng.random() < 0.3:
+        return {"k": "merged", "cls": "BiotAd", "kw": kw, "doms": doms,
+                "term": rng.choice(COUPLING), "inner": rng.choice(["flow", "temperature"])}
+    cls = rng.choice(sorted(MERGED))
+    return {"k": "merged", "cls": cls, "kw": kw, "doms": doms, "term": rng.choice(MERGED[cls])}
 
 
 def gen_leaf(rng, allow_sparse=True):
@@ -313,9 +345,13 @@ def gen_leaf(rng, allow_sparse=True):
         elif sh < 0.5:
             s["i"] = rng.choice([1, 2])
         return s
-    if r < 0.95:
+    if r < 0.90:
         return gen_proj(rng)
-    return {"k": "projlist", "ps": [gen_proj(rng) for _ in range(rng.randint(1, 3))]}
+    if r < 0.93:
+        return {"k": "projlist", "ps": [gen_proj(rng) for _ in range(rng.randint(1, 3))]}
+    if r < 0.98:
+        return gen_merged(rng)
+    return {"k": "div", "dim": rng.choice([1, 2, 3]), "doms": rng.sample(range(4), rng.randint(0, 3))}
 
 
 def gen_tree(rng, depth, evals):
@@ -396,6 +432,17 @@ def node_paths(s, path=()):
     if s["k"] == "eval":
         for i, c in enumerate(s["args"]):
             out += node_paths(c, path + (("args", i),))
+    return out
+
+
+def eval_paths(s, path=()):
+    out = [path] if s["k"] == "eval" else []
+    for f in ("a", "b"):
+        if isinstance(s.get(f), dict):
+            out += eval_paths(s[f], path + (f,))
+    if s["k"] == "eval":
+        for i, c in enumerate(s["args"]):
+            out += eval_paths(c, path + (("args", i),))
     return out
 
 
@@ -503,6 +550,31 @@ def mutate_leaf(rng, s):
             ps.pop()
         else:
             ps.append(gen_proj(rng))
+    elif k == "merged":
+        r = rng.random()
+        if r < 0.25:
+            s["kw"] = rng.choice([x for x in ("flow", "transport", "mechanics") if x != s["kw"]])
+        elif r < 0.5:
+            if s["cls"] == "BiotAd":
+                s["term"] = rng.choice([x for x in COUPLING if x != s["term"]])
+            else:
+                s["term"] = rng.choice([x for x in MERGED[s["cls"]] if x != s["term"]])
+        elif r < 0.7 and s["cls"] in ("MpfaAd", "TpfaAd"):
+            s["cls"] = "TpfaAd" if s["cls"] == "MpfaAd" else "MpfaAd"
+            s["term"] = "flux"
+        elif r < 0.85 and s.get("inner"):
+            s["inner"] = "flow" if s["inner"] != "flow" else "temperature"
+        else:
+            d = s["doms"]
+            s["doms"] = d[::-1] if len(d) >= 2 and rng.random() < 0.5 else \
+                (d + [rng.choice([x for x in range(4) if x not in d])] if len(d) < 4 else d[:-1])
+    elif k == "div":
+        if rng.random() < 0.5:
+            s["dim"] = s["dim"] % 3 + 1
+        else:
+            d = s["doms"]
+            s["doms"] = d[::-1] if len(d) >= 2 and rng.random() < 0.5 else \
+                (d + [rng.choice([x for x in range(4) if x not in d])] if len(d) < 4 else d[:-1])
     else:
         return gen_leaf(rng)
     return s
@@ -525,36 +597,41 @@ class C45(Prop):
     n_cases = (400, 8000)
     design_ref = "DESIGN.md §5 C45, §6, §6.1, Appendix A"
     level_text = (
-        "Coq theorems over a transcription of Operator._key / __hash__ and of the _key override of "
-        "every leaf class of operators.py (Scalar, DenseArray, SparseArray, TimeDependentDenseArray, "
-        "Variable, MixedDimensionalVariable, Projection, ProjectionList) as repaired by the fix "
-        "commit: the key is a prefix code (C45_prefix_injective, for every leaf/token type); every "
-        "repaired leaf key determines its leaf data (C45_leaf_keys_injective); equal trees have "
-        "equal keys and hashes (C45_equal_trees_equal_keys); for ALL trees of two-children "
-        "operation nodes over these leaves key equality is equivalent to structural equality "
-        "(C45_distinct_trees_distinct_keys_partial) and a change of one leaf in any context changes "
-        "the key (C45_single_leaf_mutation_changes_key: domain-size-only, time/iterate-shift-only, "
-        "late-entry-only mutations). The full statement is REFUTED for function-evaluation nodes, "
-        "whose key omits the function and the number of arguments "
-        "(C45_distinct_trees_distinct_keys_refuted / _arity_refuted; open known finding). The model "
-        "is tied to the code on every run: random pairs of trees are built with the real classes "
-        "and overloads, the real objects are serialised, and Coq recomputes key equality of the "
-        "model on the same trees and compares it with equality of the real _key() strings/hashes.")
+        "Coq theorems over a transcription of Operator._key / __hash__ (incl. the function token of "
+        "evaluate nodes) and of the _key override of every leaf class: Scalar, DenseArray, "
+        "SparseArray, TimeDependentDenseArray, Variable, MixedDimensionalVariable, Projection, "
+        "ProjectionList (operators.py), MergedOperator (ad_utils.py) and Divergence "
+        "(grid_operators.py), as repaired by the fix commits: the key is a prefix code for ALL "
+        "trees - two-children operation nodes and function nodes of any arity "
+        "(C45_prefix_injective, for every leaf/token type); every leaf key determines its leaf data "
+        "(C45_leaf_keys_injective); equal trees have equal keys and hashes "
+        "(C45_equal_trees_equal_keys); key equality is equivalent to structural equality "
+        "(C45_distinct_trees_distinct_keys, full statement, no guard) and a change of one leaf under "
+        "any path of operation and function nodes changes the key "
+        "(C45_single_leaf_mutation_changes_key); the evaluate-node key before the repair is refuted "
+        "(C45_old_evaluate_key_refuted). The model is tied to the code on every run: random pairs of "
+        "trees are built with the real classes and overloads, the real objects are serialised, and "
+        "Coq recomputes key equality of the model on the same trees and compares it with equality "
+        "of the real _key() strings/hashes.")
     level_note = (
         "Assumption inside the theorems (explicit premise, not an axiom): sha256 is injective on the "
         "buffers in play (sha_inj). Token abstraction: a key is modelled as the list of tokens that "
         "' '.join concatenates; that the joined STRING determines the token list is proved only "
         "under the premise that rendered tokens are prefix-free (C45_join_injective) - it fails for "
-        "adversarial variable names containing ') (' patterns; float repr and int printing are "
-        "assumed injective (floats are identified by their bit pattern, NaN excluded); numpy "
-        "buffers are identified with (item type, element list). Not modelled: leaf classes outside "
-        "operators.py (MergedOperator, Divergence, grid operators, SurrogateOperator), "
-        "AbstractFunction._key (raises NotImplementedError), Python's str hash (only 'equal keys "
-        "give equal hashes' is used). The theorems are about the model; the implementation is "
-        "covered on the generated tree pairs only.")
+        "adversarial variable / function names containing ') (' patterns; float repr and int "
+        "printing are assumed injective (floats are identified by their bit pattern, NaN excluded); "
+        "numpy buffers are identified with (item type, element list). A function is identified by "
+        "the NAME of the object whose func is evaluated (two Function objects with one name and "
+        "different callables share keys by design). Not modelled: AbstractFunction._key (raises "
+        "NotImplementedError; a function object is never a child), SurrogateOperator nodes are "
+        "function nodes named after their factory (not generated by the harness), Python's str hash "
+        "(only 'equal keys give equal hashes' is used). The theorems are about the model; the "
+        "implementation is covered on the generated tree pairs only.")
     technique = ("Coq proof (prefix-code induction over operator trees + per-leaf-class injectivity) "
                  "+ vm_compute execution correspondence on the equality pattern of real keys")
-    rule = ("random operator-tree pairs (depth <=3 quick / <=4 thorough) over all eight leaf classes, "
+    rule = ("random operator-tree pairs (depth <=3 quick / <=4 thorough) over all ten leaf classes "
+            "(incl. discretization matrices of Mpfa/Tpfa/Upwind/Mpsa/Biot with coupling keywords and "
+            "Divergence) and function nodes of arity 1-3 (function renamed, arguments regrouped), "
             "built with the real classes through the real overloads (incl. numbers/arrays as left or "
             "right operand, unary minus, previous_timestep/previous_iteration of leaves and of whole "
             "trees, key caches warmed before copying, shared leaf objects): identical rebuilds from "
@@ -581,8 +658,41 @@ class C45(Prop):
                 yield {"kind": "big-index", "t1": {"k": "bin", "op": "matmul", "a": a, "b": ctx},
                        "t2": {"k": "bin", "op": "matmul", "a": b, "b": ctx}}
                 continue
-            evals = rng.random() < 0.12
+            if c < nbig + 12:
+                # directed single-datum mutations of the leaf classes outside operators.py and
+                # of function nodes, inside a random context
+                biot = {"k": "merged", "cls": "BiotAd", "kw": "mechanics", "doms": [0, 1],
+                        "term": "scalar_gradient", "inner": "flow"}
+                mp = {"k": "merged", "cls": "MpfaAd", "kw": "flow", "doms": [1, 2], "term": "flux"}
+                dv = {"k": "div", "dim": 1, "doms": [0, 2]}
+                x = {"k": "var", "name": "p", "dom": 0}
+                y = {"k": "var", "name": "q", "dom": 1}
+                pairs = [
+                    (biot, dict(biot, inner="temperature")), (biot, dict(biot, kw="flow")),
+                    (biot, dict(biot, term="consistency")), (mp, dict(mp, cls="TpfaAd")),
+                    (mp, dict(mp, doms=[2, 1])), (mp, dict(mp, term="bound_flux")),
+                    (dv, dict(dv, dim=2)), (dv, dict(dv, doms=[2, 0])), (dv, dict(dv, doms=[0])),
+                    ({"k": "eval", "f": "exp", "args": [x]}, {"k": "eval", "f": "log", "args": [x]}),
+                    ({"k": "eval", "f": "f", "args": [{"k": "eval", "f": "g", "args": [x]}, y]},
+                     {"k": "eval", "f": "f", "args": [{"k": "eval", "f": "g", "args": [x, y]}]}),
+                    ({"k": "eval", "f": "f", "args": [x, y]}, {"k": "eval", "f": "f", "args": [y, x]}),
+                ]
+                a, b = pairs[c - nbig]
+                ctx = gen_tree(rng, 1, False)
+                op = rng.choice(["matmul", "mul", "add"])
+                yield {"kind": "directed-mutation", "t1": {"k": "bin", "op": op, "a": a, "b": ctx},
+                       "t2": {"k": "bin", "op": op, "a": copy.deepcopy(b), "b": ctx}}
+                continue
+            evals = rng.random() < 0.2
             t1 = gen_tree(rng, rng.randint(0, depth), evals)
+            if evals and rng.random() < 0.7:
+                # make sure function nodes (also nested ones) occur
+                args = [gen_tree(rng, rng.randint(0, depth - 1), True) for _ in range(rng.randint(1, 3))]
+                if rng.random() < 0.4:
+                    args[0] = {"k": "eval", "f": rng.choice(["g", "exp"]), "args": [args[0]]}
+                t1 = {"k": "eval", "f": rng.choice(["exp", "log", "f"]), "args": args}
+                if rng.random() < 0.4:
+                    t1 = {"k": "bin", "op": rng.choice(["add", "mul"]), "a": t1, "b": gen_leaf(rng)}
             r = rng.random()
             if r < 0.25:
                 kind, t2 = "rebuild", copy.deepcopy(t1)
@@ -625,6 +735,16 @@ class C45(Prop):
                     t2 = set_at(t1, p, nd)
                 else:
                     kind, t2 = "independent", gen_leaf(rng)
+            elif r < 0.92 and evals and eval_paths(t1):
+                # a function node: other function name, or the arguments regrouped
+                kind = "mutate-function"
+                p = rng.choice(eval_paths(t1))
+                nd = copy.deepcopy(get_at(t1, p))
+                if rng.random() < 0.5 or len(nd["args"]) < 2:
+                    nd["f"] = rng.choice([f for f in ("exp", "log", "f", "g") if f != nd["f"]])
+                else:       # f(a, b, ..) -> f(g(a, b), ..)  : same children keys, other arities
+                    nd["args"] = [{"k": "eval", "f": nd["f"], "args": nd["args"][:2]}] + nd["args"][2:]
+                t2 = set_at(t1, p, nd)
             elif r < 0.92:
                 kind = "prev-of-tree"
                 base = gen_tree(rng, rng.randint(1, depth - 1), False)
@@ -677,7 +797,7 @@ class C45(Prop):
             # attributable to the evaluate nodes only: everything else (all leaf data, all
             # operations, the order) coincides once function identity and arity are erased
             if ref_tokens(res["s1"], True) == ref_tokens(res["s2"], True):
-                return KNOWN_EVAL
+                return KNOWN_EVAL       # (fixed; a regression is reported under this key)
         if why.startswith("different"):
             return "key-collision"
         return "identical-trees-different-keys"
@@ -717,9 +837,8 @@ class C45(Prop):
     _stats = {"pairs": {}, "nodes": {}}
 
     def extra_evidence(self):
-        return {"input_distribution": self._stats,"refuted": ["C45_distinct_trees_distinct_keys_refuted",
-                            "C45_distinct_trees_distinct_keys_arity_refuted"],
-                "open_findings": [KNOWN_EVAL]}
+        return {"input_distribution": self._stats,
+                "refuted": ["C45_old_evaluate_key_refuted (the evaluate-node key before the repair)"]}
 
 
 PROP = C45()
